@@ -1,5 +1,6 @@
 SPECIFICATION Spec
 CONSTANT Big = TRUE
+CONSTANT Tiny = FALSE
 INVARIANT DeMorgan
 INVARIANT Subtraction
 INVARIANT TransformRoundTrip
